@@ -155,6 +155,9 @@ type Pather struct {
 	// return of one value as that value (parameters substituted), depth <= 3.
 	Inline bool
 	depth  int
+	// DistinctCalls gives repeated calls that render identically (same callee and
+	// arguments, e.g. successive reads from a cursor) an ordinal suffix @2, @3, ….
+	DistinctCalls bool
 }
 
 var paramTok = regexp.MustCompile(`(^|[^A-Za-z0-9_#])p(\d+)\b`)
@@ -439,7 +442,34 @@ func (p *Pather) path(v ssa.Value) string {
 				return s
 			}
 		}
-		return "call:" + name + "(" + strings.Join(as, ",") + ")"
+		base := "call:" + name + "(" + strings.Join(as, ",") + ")"
+		if p.DistinctCalls {
+			n := 0
+			for _, b := range p.fn.Blocks {
+				for _, in := range b.Instrs {
+					if c2, ok := in.(*ssa.Call); ok {
+						if c2 == x {
+							if n > 0 {
+								return fmt.Sprintf("%s@%d", base, n+1)
+							}
+							return base
+						}
+						if CalleeName(&c2.Call) == name && len(c2.Call.Args) == len(x.Call.Args) {
+							same := true
+							for i, a := range c2.Call.Args {
+								if p.Path(a) != as[i] {
+									same = false
+								}
+							}
+							if same {
+								n++
+							}
+						}
+					}
+				}
+			}
+		}
+		return base
 	case *ssa.Phi:
 		if p.phiCyclic(x) {
 			return p.phiName(x)
